@@ -92,3 +92,17 @@ CLAIMS.update({
           'any panic, timeout (watchdog) or bit difference between the two builds is a violation. Excluded by the property\'s own wording: clamp with min > max (asserted precondition), sin/cos/tan for |x| >= 393216 (explicit todo!()).',
           'Lean 4 exhaustive .ok-theorems on checked-arithmetic model + two-profile differential run with panic/timeout detection'),
 })
+
+CLAIMS.update({
+ 'C13': C('The generated model takes the width N as an argument, so one definition serves every width. Theorems (native_decide, complete operand spaces): PxE2<N> +, -, *, / for every N in 2..=8 and all pairs of N-bit operands; '
+          'sqrt and round for every N in 2..=12 and all inputs; mul_add, mul_sub, sub_product for N in 3..=5 and all triples: the model returns normally the exact result rounded to an N-bit es=2 posit, left-aligned (low 32-N bits zero). '
+          'PARTIAL: PxE1, larger widths and the PxE2<32> = P32E2 / PxE1<16> = P16E1 agreements are covered by correspondence + oracle (all 31 widths, both exponent sizes, small widths exhaustively). '
+          'Eleven genuine defects of the generic-width code were repaired (fix: commits); the remaining ones are recorded by call site in known_findings.json (PxE1 add/sub 1-ulp errors, PxE1 fused ops, width-32 shift overflows, PxE2<2> fused ops) '
+          'and printed as KNOWN-FINDING; any failure at another call site / width is a VIOLATION.',
+          'Lean 4 native_decide exhaustive theorems over (N, operands) for small N on width-parametric generated model + differential correspondence for all widths'),
+ 'C14': C('Theorems (native_decide, complete source spaces) on the width-parametric model: PxE2<N>::to_p32e2 and to_f64 exact for every N in 2..=14 and all N-bit patterns; PxE2<N>::from_p8e0 (all 256 sources) and from_p16e1 (all 65536 sources) '
+          'for every N in 2..=31 equal the source value rounded to an N-bit posit, left-aligned, zero/NaR preserved. PARTIAL: the other conversions (floats, integers, PxE1, generic-to-generic) for all 31 widths are covered by correspondence + oracle; '
+          'generic-to-generic (M,N) pairs and From<&Q32E2> for PxE2 (iterator-based, not translated) are NOT covered yet. Open defects are recorded by call site in known_findings.json '
+          '(from-integer conversions of PxE1 and PxE2::from_i64, float sources at N <= 3, PxE1::to_i32, width-32 widening).',
+          'Lean 4 native_decide exhaustive theorems over (N, source) on width-parametric generated model + differential correspondence for all widths'),
+})
